@@ -52,6 +52,8 @@ func propC01(c *Ctx, r *Report) {
 	c.runBackendWalk(r, spirvBackend())
 	r.Clauses = append(r.Clauses, "per-compilation state (E5): every field of the reusable spirv Backend / ModuleBuilder written during Compile is re-initialised by its reset (a wrapper-function or type cache surviving into the next module makes it call or reference ids of the previous one)")
 	c.runResetScopes(r, spirvResetScopes)
+	r.Clauses = append(r.Clauses, enumMapClause)
+	c.runEnumTables(r, "spirv")
 	r.Clauses = append(r.Clauses, colVecClause)
 	c.runColVec(r, "shape.colvec", inPkgs("spirv", "ir"))
 	r.floor("shape.colvec", 5)
@@ -72,6 +74,8 @@ func propC02(c *Ctx, r *Report) {
 	c.runSpirvTables(r)
 	r.Clauses = append(r.Clauses, "block recursion (E3): every statement walker of the SPIR-V backend that descends into 3 of the 4 block-bearing statement kinds descends into all nested blocks (body and continuing of loops, both branches of ifs, every switch case) - the walkers that collect the globals of an entry point feed the OpEntryPoint interface list required from SPIR-V 1.4 on")
 	c.runBlockWalkers(r, "operands", "spirv", inPkgs("spirv/internal/codegen"), nil)
+	r.Clauses = append(r.Clauses, enumMapClause+" - for validity: the capability declared for a builtin / image dimension, the storage class of an address space, the execution model and modes of a stage, the image format operand")
+	c.runEnumTables(r, "spirv")
 	r.Clauses = append(r.Clauses, "matrix layout through arrays (E13): every MatrixStride member decoration is emitted for a matrix found by unwrapping all array levels (Vulkan requires ColMajor/MatrixStride on every matrix or array-of-matrix member of a Block struct)")
 	c.runSeeThrough(r, "layout.seethrough")
 	r.floor("layout.seethrough", 2)
